@@ -273,3 +273,51 @@ _targets_before_purity = targets
 def targets():      # noqa: F811
     from . import purity
     return _targets_before_purity() + [purity.target_modules(["analysis/kramers_kronig/utility", "analysis/kramers_kronig/least_squares", "analysis/kramers_kronig/matrix_inversion", "analysis/kramers_kronig/cnls", "analysis/kramers_kronig/exploratory", "analysis/kramers_kronig/single"], "Kramers-Kronig modules keep no state between calls")]
+
+
+
+_DOMAIN_REPRO = '''from pyimpspec import generate_mock_data
+from pyimpspec.analysis.kramers_kronig.exploratory import evaluate_log_F_ext
+data = generate_mock_data("CIRCUIT_1", noise=0.0)[0]
+kw = %r
+try:
+    evaluate_log_F_ext(data, **kw)
+except (ValueError, TypeError) as ex:
+    raise SystemExit(f"evaluate_log_F_ext(data, **{kw}) refused arguments inside the documented domain: {type(ex).__name__}: {ex}")
+'''
+
+
+def target_argument_domain():
+    """evaluate_log_F_ext (which every Kramers-Kronig entry point goes through) refuses no option combination of the quantified
+    domain: any test kind, both representations, min_log_F_ext <= 0 < max_log_F_ext and min_log_F_ext <= log_F_ext <=
+    max_log_F_ext -- the closed range -- with a fixed extension (num_F_ext_evaluations = 0); see contracts/domain.py"""
+    from . import domain as D
+    KE = "analysis/kramers_kronig/exploratory"
+
+    def run(sess: Session):
+        for test, adm, ind in itertools.product(("complex", "real", "imaginary", "complex-inv", "real-inv", "imaginary-inv", "cnls"), (False, True), (True, False)):
+            if not ind and test.endswith("-inv"):
+                continue
+
+            def make_args():
+                return dict(data=object(), test=test, num_RCs=[3], add_capacitance=True, add_inductance=ind, admittance=adm, min_log_F_ext=D.Num.var("min_log_F_ext"),
+                            max_log_F_ext=D.Num.var("max_log_F_ext"), log_F_ext=D.Num.var("log_F_ext"), num_F_ext_evaluations=0, rapid_F_ext_evaluations=True,
+                            cnls_method="leastsq", max_nfev=0, timeout=60, num_procs=1)
+
+            def dom(a):
+                lo, hi, x = a["min_log_F_ext"].e, a["max_log_F_ext"].e, a["log_F_ext"].e
+                return [lo <= 0, hi > 0, lo <= x, x <= hi]
+            D.check_domain(sess, KE, "evaluate_log_F_ext", D.mentions("data.get_frequencies", "data.get_impedances"), make_args, dom, f"[{test},admittance={adm},add_inductance={ind}]")
+        for ob in sess.obligations:
+            w = getattr(ob, "witness_args", None)
+            if w and ob.status == "refuted":
+                kw = {k: (float(str(v).rstrip("?")) if k.endswith("log_F_ext") else v) for k, v in w.items()}
+                ob.replay = {"input": kw, "repro": _DOMAIN_REPRO % (kw,)}
+    return (f"{KE}:evaluate_log_F_ext [argument domain]", KE, "evaluate_log_F_ext", run)
+
+
+_targets_before_domain = targets
+
+
+def targets():      # noqa: F811
+    return _targets_before_domain() + [target_argument_domain()]
